@@ -24,6 +24,8 @@ Hooks_tickh == ("A" :> {"start"}) @@ ("B" :> {"eval"})
 Hooks_mix == ("A" :> {"eval", "start", "stop"}) @@ ("B" :> {"stop"}) @@ ("C" :> {})
 Hooks_ctxn == ("A" :> {"stop"}) @@ ("B" :> {})
 Flags_ctxn == ("A" :> <<{"REPLACE"}>>) @@ ("B" :> <<{}>>)
+Flags_denypubB == ("A" :> <<{}>>) @@ ("B" :> <<{"DENYPUB"}>>)
+Flags_denyctxA == ("A" :> <<{"DENYCTX"}>>) @@ ("B" :> <<{}>>)
 Hooks_ctx == ("A" :> {"stop"}) @@ ("B" :> {"eval"})
 \* C15: A may be replaced and is persistent; B is denied everything
 Flags_perm == ("A" :> <<{"REPLACE", "PERSIST"}, {}>>) @@ ("B" :> <<{"DENYCTX", "DENYPUB", "DENYSUB"}>>)
